@@ -85,7 +85,8 @@ def run(ctx):
             elif k2 == "ok" and conforms.conforms(s, w) and validate(s, v1).has_errors() is False and validate(ws, v2).has_errors():
                 ctx.violation("a value generated from the wrapped tree is rejected by it", value=repr(v2), **info)
         # 4. substitution succeeds / fails identically and results agree after erasing
-        for v in vals[:6]:
+        from ..substcorr import ellipsize, partial
+        for v in vals[:6] + [..., ellipsize(w, ctx.rnd), partial(w, ctx.rnd), [...], {"a": ...}]:
             r1 = try_subst(s, v)
             r2 = try_subst(ws, v)
             ctx.count("subst_pairs")
